@@ -234,4 +234,20 @@ pub fn run(ctx: &mut Ctx) {
         }
         ctx.stat("encode");
     }
+    // the largest datagrams a UDP socket can deliver (the forwarder reads with a 65508-byte buffer): around the decoder's
+    // limit for client records (65471 bytes of payload), which is not the encoder's, up to the UDP maximum
+    for plen in [9000usize, 65470, 65471, 65472, 65473, 65500, 65506, 65507] {
+        for v6 in [false, true] {
+            let src: SocketAddr = if v6 { "[2001:db8::7]:53".parse().unwrap() } else { "198.51.100.7:53".parse().unwrap() };
+            let dst: SocketAddr = "10.1.0.1:40000".parse().unwrap();
+            let payload: Vec<u8> = (0..plen).map(|i| (i * 31 % 251) as u8).collect();
+            let q = format!("c06 encode {} {} {}", sock_tokens(&src), sock_tokens(&dst), hex(&payload));
+            begin_case(&q);
+            match verif::udp_encode(src, dst, &payload) {
+                Some(b) => ctx.emit(&q, &hex(&b)),
+                None => ctx.emit(&q, "none"),
+            }
+            ctx.stat("encode_large");
+        }
+    }
 }
